@@ -49,7 +49,7 @@ func c13Doc(t *rapid.T, tag string) map[string]any {
 // c13Query draws one query over a document built with the given tag.
 func c13Query(t *rapid.T, tag string, site int, readOnlyOnly bool, onlyKind ...string) (q string, orderOpen bool, kind string, reader bool) {
 	kinds := []string{"filter", "subquery", "exists", "join", "pjoin", "group", "async", "order", "cte", "phash", "reader", "in_sub", "spinasync", "derived",
-		"range_reader", "range_from", "distinct_reader", "cte_async", "derived_async", "sub_async", "range_col", "pjoin_fail", "var_corunner", "join_using", "union", "distinct_wide", "distinct_wide_reader", "cte_join_using", "cte_self_pjoin", "like", "like", "cte_direct_slow", "sub2_async", "constants", "report", "pjoin_on_exists", "pjoin_on_exists"}
+		"range_reader", "range_from", "distinct_reader", "cte_async", "derived_async", "sub_async", "range_col", "pjoin_fail", "var_corunner", "join_using", "union", "distinct_wide", "distinct_wide_reader", "cte_join_using", "cte_self_pjoin", "like", "like", "cte_direct_slow", "sub2_async", "constants", "report", "pjoin_on_exists", "pjoin_on_exists", "async_reads_scope", "spin_reads_rows", "global_in_pjoin_on", "pjoin_on_union"}
 	if len(onlyKind) > 0 {
 		// (bundles made of one kind only: a known finding is attached to that kind, see known_findings.json)
 		kinds = onlyKind
@@ -104,6 +104,21 @@ func c13Query(t *rapid.T, tag string, site int, readOnlyOnly bool, onlyKind ...s
 		pat := rapid.SampledFrom([]string{"x%", "%y", "y", "%", "x", "_", "%x%"}).Draw(t, "likepat")
 		neg := rapid.SampledFrom([]string{"", "NOT "}).Draw(t, "likeneg")
 		return fmt.Sprintf("SELECT %s, %s FROM %s WHERE %s %sLIKE '%s'", id, s, T, s, neg, pat), false, kind, false
+	case "async_reads_scope":
+		// a slow ASYNC call holds the row of a nested `FROM dual` - the scope of the statement - while a later item reads a CTE for the first time
+		return fmt.Sprintf("WITH c%s AS (SELECT %s FROM %s) SELECT ASYNC.fx(%d, (SELECT * FROM dual)) AS held, (SELECT %s FROM `<-c%s` WHERE %s >= 0) AS later FROM %s", tag, id, T, site, id, tag, id, T), false, kind, false
+	case "spin_reads_rows":
+		// a detached SPIN call is handed the rows of a nested select, which the query goes on to finish
+		return fmt.Sprintf("SELECT %s, SPIN.fx(%d, (SELECT * FROM %s)), (SELECT %s, ASYNC.fx(%d, %s) AS y FROM %s) AS sub FROM %s", id, site, n, v, site, v, n, T), false, kind, false
+	case "global_in_pjoin_on":
+		jt := rapid.SampledFrom([]string{"PARALLEL JOIN", "PARALLEL LEFT JOIN"}).Draw(t, "gjt")
+		return fmt.Sprintf("SELECT * FROM %s x %s %s y ON x.%s <= y.%s AND GLOBAL.fid((SELECT %d AS i FROM dual), (SELECT TRUE AS b FROM dual))", T, jt, U, id, id, site), true, kind, false
+	case "pjoin_on_union":
+		// every ON evaluation builds the nested select from the one parsed statement
+		jt := rapid.SampledFrom([]string{"PARALLEL JOIN", "PARALLEL LEFT JOIN"}).Draw(t, "ujt2")
+		sub := rapid.SampledFrom([]string{"EXISTS (SELECT * FROM `<-.%T%` a JOIN `<-.%U%` b USING (%ID%))", "EXISTS (SELECT %ID% FROM `<-.%T%` UNION ALL SELECT %ID% FROM `<-.%U%`)"}).Draw(t, "usub")
+		sub = strings.NewReplacer("%T%", T, "%U%", U, "%ID%", id).Replace(sub)
+		return fmt.Sprintf("SELECT * FROM %s x %s %s y ON x.%s <= y.%s AND %s", T, jt, U, id, id, sub), true, kind, false
 	case "pjoin_on_exists":
 		// the workers of a PARALLEL join evaluate ON - and the nested selects in it - concurrently on one query
 		jt := rapid.SampledFrom([]string{"PARALLEL JOIN", "PARALLEL LEFT JOIN", "PARALLEL STRAIGHT_JOIN"}).Draw(t, "pejt")
